@@ -426,9 +426,24 @@ fn associated_imports(m: &Model, ctx: &mut Ctx) {
         let mut h = BTreeMap::new();
         h.insert("name".to_string(), Val::Str(name.into()));
         h.insert("module_identifier".to_string(), Val::none());
-        h.insert("$imported".to_string(), Val::Bool(imported));
+        // the IMPORTS of the module: near misses of the governing type's name (a proper prefix, an extension) are always
+        // there — whether `Level` is imported is a question about that symbol, not about the spelling of its neighbours
+        let import = |types: &[&str]| {
+            let mut i = BTreeMap::new();
+            i.insert("types".to_string(), Val::List(types.iter().map(|t| Val::Str((*t).into())).collect()));
+            i.insert("global_module_reference".to_string(), Val::Opaque("module".into()));
+            i.insert("with".to_string(), Val::none());
+            Val::Ctor("Import".into(), vec![], i)
+        };
+        h.insert("imports".to_string(), Val::List(if imported { vec![import(&["X"]), import(&["Lev", "Level", "Levels"])] } else { vec![import(&["X", "Lev"]), import(&["Levels", "level"])] }));
         Val::Ctor("ModuleHeader".into(), vec![], h)
     };
+    // ModuleHeader::find_import is the crate's own (evaluated, not modelled)
+    let find_import = m.fns.iter().find(|g| g.name == "find_import" && g.self_ty.as_deref() == Some("ModuleHeader"));
+    if find_import.is_none() {
+        ctx.fail_closed("C12.assoc", "anchor not found: ModuleHeader::find_import");
+        return;
+    }
     for (what, type_module, already, want_added) in [
         ("type of another module, not imported yet", "Beta", false, true),
         ("type of another module, already imported", "Beta", true, false),
@@ -450,14 +465,15 @@ fn associated_imports(m: &Model, ctx: &mut Ctx) {
                     Some(Ok(Val::some(Val::Ctor("Type".into(), vec![Val::Ctor("ToplevelTypeDefinition".into(), vec![], t)], BTreeMap::new()))))
                 }
                 ".borrow" | ".borrow_mut" | ".as_ref" | ".clone" if a.len() == 1 => Some(Ok(a[0].clone())),
-                ".find_import" => match a.first() {
-                    Some(Val::Ctor(_, _, f)) => Some(Ok(if f.get("$imported") == Some(&Val::Bool(true)) { Val::some(Val::Str("Beta".into())) } else { Val::none() })),
-                    _ => None,
-                },
                 _ => None,
             }
         };
-        let ev = Evaluator { consts: &consts, call_hook: &hook, inline: None };
+        let mut inl: BTreeMap<String, (Vec<String>, syn::Block)> = BTreeMap::new();
+        if let Some(g) = find_import {
+            let ps: Vec<String> = g.sig.inputs.iter().filter_map(|a| match a { syn::FnArg::Typed(t) => Some(tok(&t.pat)), _ => None }).collect();
+            inl.insert(".find_import".into(), (ps, g.block.clone()));
+        }
+        let ev = Evaluator { consts: &consts, call_hook: &hook, inline: Some(&inl) };
         let mut env = Env::new();
         let mut sv = BTreeMap::new();
         sv.insert("tlds".to_string(), Val::Opaque("tlds".into()));
